@@ -415,13 +415,21 @@ def run(chk: Check):
         if not sc["cb_actions"] and not sc["thread_actions"]:
             # what reached the message callbacks, in order (a SYS:MODELNAME line may legitimately be withheld as
             # the reply to a start-up probe the silent device of this scenario never answered: C13)
-            delivered = {"history": [[e["status"], e["sfv"]] for e in s.sim.events if e["k"] == "Deliver"], "subs": sc["subs"]}
-            exp = expected_updates(delivered, infos)
+            from ..translate import split_sfv as _split
+
+            hist = []
+            for e in s.sim.events:
+                if e["k"] == "Line":
+                    t = _split(e["text"])
+                    if t and not (t[0] == "SYS" and t[1] == "MODELNAME"):  # only that line can be withheld (C13)
+                        hist.append(["OK", list(t)])
+            delivered = {"history": hist, "subs": sc["subs"]}
+            exp = [x for x in expected_updates(delivered, infos) if not (x[0] == "SYS" and x[1] == "MODELNAME")]
             for si, idx in enumerate(sc["subs"]):
                 cid = infos[idx][1]
                 want = [(c, f, v) for c, f, v in exp if c == cid]
                 for k in range(sc["n_update"]):
-                    got = [a for _, nme, kind, a, _ in s.invocations if nme == f"u{si}_{k}"]
+                    got = [a for _, nme, kind, a, _ in s.invocations if nme == f"u{si}_{k}" and not (a[0] == "SYS" and a[1] == "MODELNAME")]
                     if got != want:
                         chk.violation("C09:notifications", f"update callback u{si}_{k} of {cid} saw {got[:4]!r}..., expected {want[:4]!r}...", {"scenario": sc})
 
